@@ -457,6 +457,10 @@ func (s *ServerSession) doCreateStream(tid int, stream *Stream) error {
 }
 
 func (s *ServerSession) doPublish(tid int, stream *Stream) (err error) {
+	// 注意，一个连接只允许publish或play一次
+	if s.sessionStat.BaseType() != base.SessionBaseTypePubSubStr {
+		return nazaerrors.Wrap(base.ErrRtmpUnexpectedMsg)
+	}
 	if err = stream.msg.readNull(); err != nil {
 		return err
 	}
@@ -498,6 +502,10 @@ func (s *ServerSession) doPublish(tid int, stream *Stream) (err error) {
 }
 
 func (s *ServerSession) doPlay(tid int, stream *Stream) (err error) {
+	// 注意，一个连接只允许publish或play一次
+	if s.sessionStat.BaseType() != base.SessionBaseTypePubSubStr {
+		return nazaerrors.Wrap(base.ErrRtmpUnexpectedMsg)
+	}
 	if err = stream.msg.readNull(); err != nil {
 		return err
 	}
